@@ -288,6 +288,17 @@ def run(ctx):
     ctx.parallel(well_typed_product(ctx) + ill_typed(ctx))
     no_likelihood_call_at_construction(ctx)
     wiring(ctx)
+    # O4: inter-component preconditions along a run, for every valid configuration (cluster_every >= 1, clustering on/off, both
+    # resamplers): the contracts proved under C14 are re-established here so that a constructor/Trainer pair that disagrees on the
+    # "not fitted yet" sentinel, or a pipeline order that breaks a callee's precondition, fails under this property too
+    from . import c14
+    n0 = len(ctx.results)
+    c14.clusterer_init(ctx)
+    for cl_on in (True, False):
+        c14.trainer(ctx, cl_on)
+        c14.iteration(ctx, cl_on)
+    for r in ctx.results[n0:]:
+        r.replayer = "c14_modes"
     ctx.trust("dataclass(frozen=True) semantics: fields are assigned, then __post_init__ runs; object.__setattr__ bypasses the freeze",
               "pathlib.Path(str) yields a Path", "callable(f) for the user's functions",
               "set(list)/intersection/truthiness/any over index collections (pysets model)",
